@@ -316,9 +316,9 @@ impl Scenario for C11 {
         let style = r.below(4);
         let c2s = match r.below(4) {
             0 => WirePolicy::whole(),
-            1 => WirePolicy { seed: r.next_u64(), max_seg: 1, lat_min: 0, lat_max: 0, cap: 1 << 22, max_write: 0 },
-            2 => WirePolicy { seed: r.next_u64(), max_seg: r.usize_in(2, 64), lat_min: 0, lat_max: 2, cap: 4, max_write: 0 },
-            _ => WirePolicy { seed: r.next_u64(), max_seg: lim.max(1), lat_min: 0, lat_max: 1, cap: 1 << 22, max_write: 0 },
+            1 => WirePolicy { seed: r.next_u64(), max_seg: 1, lat_min: 0, lat_max: 0, cap: 1 << 22, max_write: 0 , opaque: false},
+            2 => WirePolicy { seed: r.next_u64(), max_seg: r.usize_in(2, 64), lat_min: 0, lat_max: 2, cap: 4, max_write: 0 , opaque: false},
+            _ => WirePolicy { seed: r.next_u64(), max_seg: lim.max(1), lat_min: 0, lat_max: 1, cap: 1 << 22, max_write: 0 , opaque: false},
         };
         let mode = if idx % 2 == 0 { Mode::Cancel } else { Mode::Detached };
         for len in 0..=lim + 3 {
@@ -470,8 +470,18 @@ pub fn check_c11(
                     probes.push("one_over_limit_refused");
                 }
                 if !(400..500).contains(&st) {
+                    // multipart: the excess lies entirely in the CRLF after
+                    // the closing delimiter, which the multipart parser never
+                    // reads (the handler still observed <= limit bytes)
+                    let epilogue_only = is_mp && *len - *limit <= 2 && !*may_be_invalid;
                     v.push(Violation {
-                        rule: if is_mp { "c11.multipart_over_limit_not_refused".into() } else { "c11.over_limit_not_refused".into() },
+                        rule: if epilogue_only {
+                            "c11.multipart_epilogue_over_limit_accepted".into()
+                        } else if is_mp {
+                            "c11.multipart_over_limit_not_refused".into()
+                        } else {
+                            "c11.over_limit_not_refused".into()
+                        },
                         detail: format!(
                             "endpoint {ep}: body of {} bytes with effective limit {} answered {} instead of a 4xx",
                             len, limit, st
